@@ -3,6 +3,7 @@ import z3
 
 from pyvc.api import contract, LoopInv, Int, Bool, Bytes, ByteArray, Str, ListOf, TupleOf, Opaque, implies
 from pyvc.values import SObj, SSeq, SBytes
+from pyvc.interp import StubObj
 from pyvc.stubs_crypto import AEADObj
 from specs.framing import frames, nchunks, join, unf_pts, unf_rem, unf_ctr, unf_fail, BList
 
@@ -10,23 +11,27 @@ from aiohomekit.controller.ip.connection import SecureHomeKitProtocol, InsecureH
 from aiohomekit.crypto.chacha20poly1305 import ChaCha20Poly1305Encryptor, ChaCha20Poly1305Decryptor
 
 
+class _Conn(StubObj):
+    pass
+
+
 def make_protocol(it):
-    """a SecureHomeKitProtocol in an arbitrary state that satisfies its representation invariant:
-    32-byte keys, encryptor/decryptor built from exactly those keys, counters >= 0"""
+    """a SecureHomeKitProtocol in an arbitrary state satisfying its representation invariant.  The object is
+    built by the REAL constructor (so every field the class has exists, also ones added later); the fields this
+    contract knows are then made arbitrary: counters >= 0, any buffer content.  Fields the contract does not
+    name stay at their constructor values (stated assumption)."""
     c2a = it.fresh(Bytes, "c2a_key")
     a2c = it.fresh(Bytes, "a2c_key")
     it.ctx.assume(z3.Length(c2a.term) == 32)
     it.ctx.assume(z3.Length(a2c.term) == 32)
-    p = SObj(SecureHomeKitProtocol, label="proto")
-    p.fields.update(
-        c2a_key=c2a,
-        a2c_key=a2c,
-        c2a_counter=it.fresh(Int, "c2a_counter"),
-        a2c_counter=it.fresh(Int, "a2c_counter"),
-        _incoming_buffer=it.fresh(ByteArray, "incoming_buffer"),
-        encryptor=SObj(ChaCha20Poly1305Encryptor, {"chacha": AEADObj(c2a)}),
-        decryptor=SObj(ChaCha20Poly1305Decryptor, {"chacha": AEADObj(a2c)}),
-    )
+    n0 = len(it.ctx.trace)
+    p = it.instantiate(SecureHomeKitProtocol, [_Conn(), a2c, c2a], {})
+    del it.ctx.trace[n0:]
+    p.label = "proto"
+    p.fields["c2a_counter"] = it.fresh(Int, "c2a_counter")
+    p.fields["a2c_counter"] = it.fresh(Int, "a2c_counter")
+    p.fields["_incoming_buffer"] = it.fresh(ByteArray, "incoming_buffer")
+    it.env.assumptions_used.add("object fields not named in the contract are at their constructor values")
     return p
 
 
@@ -48,6 +53,7 @@ class PlainDataReceivedAssumed:
     was delivered to the application layer"""
 
     params = {}
+    modifies = ["self.current_response", "self.result_cbs"]
 
     def effects(it, ns):
         d = it.ctx.ghost.get("delivered")
